@@ -59,6 +59,31 @@ def runOutcome (env : Env) (cfg : Cfg) (seqNr nAos : Nat) (prev : Outcome) (obs 
 def runReports (cfg : Cfg) (missingFormats failChannels : List Nat) (seqNr : Nat) (o : Outcome) : List ReportOut :=
   reports cfg {} (fun r fmt => !missingFormats.contains fmt && !failChannels.contains r.channelID) seqNr o
 
+
+/-- run a threaded history; returns the per-round JSON results and the retirement report of the last
+    retired round (if any) -/
+def runHistory (env : Env) (cfg : Cfg) (mf : List Nat) (start : Outcome) (startSeq : Nat) (rounds : List Json) :
+    P (Array Json × Option RetirementReport) := do
+  let mut cur := start
+  let mut outs : Array Json := #[]
+  let mut seq := startSeq
+  let mut rr : Option RetirementReport := none
+  for r in rounds do
+    seq := seq + 1
+    let (n, obs) ← asObsList (fldD r "obs")
+    match (outcome env cfg {} n cur obs).bind (codecRoundTrip cfg) with
+    | .ok o =>
+      cur := o
+      let reps := runReports cfg mf [] seq o
+      for x in reps do
+        match x with
+        | .retirement r' => rr := some r'
+        | _ => pure ()
+      outs := outs.push (Json.mkObj [("outcome", jOutcome o), ("reports", .arr (reps.map jReportOut).toArray)])
+    | .err e => outs := outs.push (Json.mkObj [("err", .str e)])
+    | .panic => outs := outs.push (Json.mkObj [("panic", .bool true)])
+  pure (outs, rr)
+
 def handleLLO (op : String) (j : Json) : Option (P Json) :=
   match op with
   | "llo.hash" => some (do
@@ -114,19 +139,50 @@ def handleLLO (op : String) (j : Json) : Option (P Json) :=
           | .error _ => .err "bad-start"
       match start with
       | .ok o0 =>
+        let (outs, _) ← runHistory env cfg mf o0 (← getNat j "startSeqNr") rounds
+        pure (Json.mkObj [("ok", .arr outs)])
+      | _ => pure (Json.mkObj [("err", "encode-start")]))
+  | "llo.handover" => some (do
+      -- instance A runs first; its last retirement report is what the attestation token a77e57
+      -- resolves to when instance B (the successor) checks it
+      let cfgA ← fld j "cfgA" >>= asCfg
+      let cfgB ← fld j "cfgB" >>= asCfg
+      let envA := mkEnv (fun _ => none) []
+      match codecRoundTrip cfgA (initialOutcome cfgA), codecRoundTrip cfgB (initialOutcome cfgB) with
+      | .ok a0, .ok b0 =>
+        let (outsA, rr) ← runHistory envA cfgA [] a0 1 (← getArr j "roundsA")
+        let envB := mkEnv (fun b => if b == [0xA7, 0x7E, 0x57] then rr else none) []
+        let (outsB, _) ← runHistory envB cfgB [] b0 1 (← getArr j "roundsB")
+        pure (Json.mkObj [("ok", Json.mkObj [("A", .arr outsA), ("B", .arr outsB),
+          ("rr", match rr with | some r => jRR r | none => .null)])])
+      | _, _ => pure (Json.mkObj [("err", "encode-start")]))
+  | "llo.converge" => some (do
+      -- correct nodes all see `target`; their votes are `observationVotes`; faulty observations are given
+      let cfg ← fld j "cfg" >>= asCfg
+      let target ← asDefs (fldD j "target")
+      let badOpts ← (← asArr (fldD j "badOpts")).mapM asBytes
+      let env := mkEnv (fun _ => none) badOpts
+      let start ← fld j "start" >>= asOutcome
+      match codecRoundTrip cfg start with
+      | .ok o0 =>
         let mut cur := o0
         let mut outs : Array Json := #[]
-        let mut seq := (← getNat j "startSeqNr")
-        for r in rounds do
-          seq := seq + 1
-          let (n, obs) ← asObsList (fldD r "obs")
-          match (outcome env cfg {} n cur obs).bind (codecRoundTrip cfg) with
-          | .ok o =>
-            cur := o
-            outs := outs.push (Json.mkObj [("outcome", jOutcome o),
-              ("reports", .arr ((runReports cfg mf [] seq o).map jReportOut).toArray)])
-          | .err e => outs := outs.push (Json.mkObj [("err", .str e)])
-          | .panic => outs := outs.push (Json.mkObj [("panic", .bool true)])
+        for r in (← getArr j "rounds") do
+          let nh ← getNat r "nHonest"
+          let ts ← getNat r "ts"
+          let (nf, faulty) ← asObsList (fldD r "faulty")
+          match observationVotes env cur target with
+          | none => outs := outs.push (Json.mkObj [("err", "refuse")])
+          | some (rm, upd) =>
+            let honest : Obs := { attested := [], shouldRetire := false, ts := ts, removes := rm, updates := upd, values := [] }
+            let obs := List.replicate nh honest ++ faulty
+            match (outcome env cfg {} (nh + nf) cur obs).bind (codecRoundTrip cfg) with
+            | .ok o =>
+              cur := o
+              outs := outs.push (Json.mkObj [("defs", jDefs o.defs), ("stage", .str o.stage),
+                ("votes", Json.mkObj [("removes", .arr (rm.map jNat).toArray), ("updates", jDefs upd)])])
+            | .err e => outs := outs.push (Json.mkObj [("err", .str e)])
+            | .panic => outs := outs.push (Json.mkObj [("panic", .bool true)])
         pure (Json.mkObj [("ok", .arr outs)])
       | _ => pure (Json.mkObj [("err", "encode-start")]))
   | _ => none
